@@ -47,6 +47,10 @@ def decodeTok (s : String) : Tok :=
     | [c] => .short c
     | _ => .other
   | ["l", h] => .long (unhex h)
+  | ["e", hn, hv, i, bits] =>             -- `--name=value`: name, value text, and the value's converter bits as for a word
+    let b := bits.toList
+    .eq (unhex hn) { text := unhex hv, int? := if i == "-" then none else i.toInt?,
+                     floatOk := b.getD 0 '0' == '1', litOk := b.getD 1 '0' == '1', dotOk := b.getD 2 '0' == '1' }
   | _ => .other
 
 def showAtom : Atom → String
@@ -62,7 +66,7 @@ def showNamed (a : Str × ArgVal) : String := hexOf a.1 ++ "=" ++ showVal a.2
 
 def showErr : ErrKind → String
   | .unknownCommand => "unknown-command" | .badValue => "bad-value" | .needsValue => "needs-value"
-  | .missing => "missing" | .unrecognized => "unrecognized"
+  | .missing => "missing" | .unrecognized => "unrecognized" | .ambiguous => "ambiguous" | .explicitArg => "explicit-arg"
 
 def paramsOf (ms : List Member) (m : Str) : List Param :=
   match ms.find? (fun x => x.name == m) with
